@@ -57,6 +57,28 @@ def run(chk):
             return f"dyn_loss = {found}"
         chk.run("C03.R1", site + "->dynamic_loss_apply", cfg, go, construct="dyn_loss formula")
 
+    # "for every batch": a batch of a single row (the named row axis has extent 1, see alg.unit_axes) - the mean over the rows
+    # is then the row's own weighted sum of squares, whatever the number of components
+    from ..alg import unit_axes
+    for eq_type in ('ODE', 'statio_PDE', 'nonstatio_PDE'):
+        for m_res, wkind in ((2, 'vector'), (3, 'scalar'), (1, 'scalar')):
+            for pk in ((), ('nu',)):
+                cfg = {"loss": eq_type, "net": "PINN", "residual_components": m_res, "weight": wkind, "param_batch": list(pk),
+                       "batch_rows": 1}
+                site = {"ODE": "jinns.loss._LossODE:LossODE.evaluate", "statio_PDE": "jinns.loss._LossPDE:LossPDEStatio.evaluate",
+                        "nonstatio_PDE": "jinns.loss._LossPDE:LossPDENonStatio.evaluate"}[eq_type]
+
+                def go(eq_type=eq_type, m_res=m_res, wkind=wkind, pk=pk):
+                    with unit_axes("B"):
+                        S = SingleLoss(E, eq_type, 'PINN', d=2, m_u=2 if m_res > 1 else 1, m_res=m_res, terms=('dyn',), wkind=wkind)
+                        total, terms = S.evaluate(param_keys=pk)
+                        found = canon(scalar_of(terms['dyn_loss'], 'dyn_loss'))
+                        exp = canon(scalar_of(S.expected_dyn(pk), 'spec'))
+                    if found != exp:
+                        raise Violation("dyn_loss", str(found), str(exp))
+                    return f"dyn_loss = {found}"
+                chk.run("C03.R1", site + "->dynamic_loss_apply", cfg, go, construct="dyn_loss formula (single-row batch)")
+
     # an equation returning a scalar (float) residual per point - the documented return kind of `equation`
     for eq_type, kind in (('ODE', 'PINN'), ('statio_PDE', 'PINN'), ('nonstatio_PDE', 'PINN'), ('statio_PDE', 'SPINN'),
                           ('nonstatio_PDE', 'SPINN')):
